@@ -709,13 +709,24 @@ class Extractor:
             if alias and selfty != 'PhantomData<T>':
                 self.out.emit('    closed spec fn spec_info() -> Type<MetaForm> { <%s as TypeInfo>::spec_info() }' % alias, 'tmpl', name)
                 ftxt = global_rules(fn_txt, 'src/impls.rs', 0, self.log, keep_derive=False)
+                fmask = code_mask(fn_txt)
+                body_code = ''.join(c if mk else ' ' for c, mk in zip(fn_txt, fmask))
+                body_code = body_code[body_code.index('{'):]
+                forwarding = re.match(r'^\{\s*[^;{}()]*::\s*type_info\s*\(\s*\)\s*\}\s*$', body_code) is not None
+                if not forwarding:
+                    # the wrapper builds a definition of its own instead of forwarding to its target's: whether that definition equals
+                    # the target's cannot be decided here (the builders are not part of this unit) - the body is replaced by an opaque
+                    # value, the obligation fails, and because the body's callees changed it is reported as `restructured` (undecided)
+                    sig = ftxt[:ftxt.index('{')].rstrip()
+                    ftxt = sig + ' { opaque_definition() }'
+                    self.log.rw('OPQ', 'src/impls.rs', 0, norm(fn_txt)[:160], norm(ftxt) + '  (non-forwarding body of an alias impl: left undecided)')
                 if self.canary:
                     bi = ftxt.index('{')
                     ftxt = ftxt[:bi + 1] + '\n proof { assert(false); } // CANARY\n' + ftxt[bi + 1:]
                 self.out.emit('    ' + ftxt, 'repo', name + '::type_info', 'rustc-expanded:src/impls.rs', None)
                 self.obligation_items.append(name + '::type_info')
                 self.log.items.append(dict(kind='fn', name=name + '::type_info', file='src/impls.rs (expanded)', line=None, external=False,
-                                           declared_only=False, ghost_lines=0, sha=hashlib.sha1(norm(fn_txt).encode()).hexdigest()[:12]))
+                                           declared_only=False, ghost_lines=0, shape=fn_shape(fn_txt, fmask), sha=hashlib.sha1(norm(fn_txt).encode()).hexdigest()[:12]))
             else:
                 if selfty == 'PhantomData<T>':
                     body = fn_txt[fn_txt.index('{'):]
